@@ -49,7 +49,7 @@ def generate(rng):
         prim["params"]["mu"] = 0.0
         flat = True
     pkind = prim["kind"]
-    d = gen_derivative(rng, "d0", prim, kinds=OPTION_KINDS + ["VarianceSwap", "EuropeanForwardStartOption"], steps=rng.choice([2, 3, 5, 8]))
+    d = gen_derivative(rng, "d0", prim, kinds=OPTION_KINDS + ["VarianceSwap", "EuropeanForwardStartOption"], steps=rng.nsteps([2, 3, 5, 8]))
     if flat and d["kind"] == "VarianceSwap":
         d = gen_derivative(rng, "d0", prim, kinds=["EuropeanOption"], steps=3)
     if rng.chance(0.3):
@@ -80,7 +80,7 @@ def generate(rng):
         init = None
         if rng.chance(0.2):
             init = {"HestonStock": [1.05, 0.05], "RoughBergomiStock": [1.05, 0.05]}.get(pkind, [1.05])
-        ops.append({"op": "price", "hedge": hedge, "n_paths": rng.choice([1, 2, 3, 5, 8, 20]), "n_times": rng.choice([1, 1, 2, 3]),
+        ops.append({"op": "price", "hedge": hedge, "n_paths": rng.npaths([1, 2, 3, 5, 8, 20]), "n_times": rng.choice([1, 1, 2, 3]),
                     "init_state": init, "torch_seed": rng.seed31(), "k": rng.choice([0.25, -0.125, 1.0, -0.5]),
                     "clone": rng.chance(0.3)})
     return {"profile": "c06", "env": {"default_dtype": "float32"}, "world": world, "ops": ops, "flat": flat}
